@@ -148,6 +148,8 @@ func (m *CPU) Run(app risc.Application) (int, error) {
 			for _, wu := range m.writeUnits {
 				for !wu.isEmpty() || !m.writeBus.IsEmpty() {
 					m.ctx.VerifTick()
+					// Entries still in the input buffer of the bus must become visible too
+					m.writeBus.Connect(cycle + 1)
 					cycle++
 					wu.cycle(m.ctx, from)
 				}
